@@ -106,7 +106,8 @@ static void step_hook(Context& ctx, const Statement *)
     {
       Symbol& s = ctx.getSymbol(i);
       auto key = std::make_pair((const Context*)&ctx, i);
-      if (!s.safety()) { g_safe.erase(key); continue; }
+      // a '$' name carries the immutable-type constraint by definition, whatever the flag says
+      if (!s.safety() && s.name()[0] != Symbol::SAFETY_QUALIFIER) { g_safe.erase(key); continue; }
       Value& v = ctx.loadVariable(i);
       if (v.type().major() == Type::NO_TYPE) { continue; }
       SafeObs now = { v.type().major(), (unsigned)v.type().level() };
